@@ -72,6 +72,15 @@ theorem generated_try_result (σ : World) (parent : Option String) (p : Input) (
     simp [M.ret] at hr; subst hr
     exact Or.inr (try_failure_is_first_failure σ parent p kind htry v hf)
 
+/-- The same from the tokens the caller wrote: parser, generator and evaluation composed (any behaviour of syn). -/
+theorem accepted_try_result (o : Oracle) (toks : Toks) (σ : World) (parent : Option String) (p : Input) (kind : Kind)
+    (code : Code) (hparse : parseMacroInput o toks = .ok p) (hd : PlainInvocation p kind) (hgen : gen p kind = .ok code)
+    (htry : kind.isTry = true) (hh : p.handler = none) (r : Value) (hr : (evalCode σ parent code).res = .ok r) :
+    (∃ ps, r = .succ (mkTuple ps) ∧ ∀ e ∈ chainEnds (evalCode σ parent code).trace, e.2.2.isSucc = true) ∨
+    (r.isSucc = false ∧ ∃ b j, (b, j, r) ∈ chainEnds (evalCode σ parent code).trace ∧
+      ∀ e ∈ chainEnds (evalCode σ parent code).trace, e.2.2.isSucc = false → j ≤ e.2.1 ∧ (e.2.1 = j → b ≤ e.1)) :=
+  generated_try_result σ parent p kind code (accepted_supported o toks p kind hparse hd) hgen htry hh r hr
+
 /-- Non-vacuity and regression for the defect fixed in /repo 704b5ce: depths (1, 3, 3), branch 1 fails in step 1. -/
 def d1World : World where
   capture _ _ _ _ _ := .ok (.atom 0)
